@@ -9,6 +9,11 @@ from ..sweep34 import cflags
 
 LEVEL = "exploration"
 
+GROUP_TEXT = {("conv", "ci"): "coerce_in<T>/coerce_as<T>/in<T>/as<T> (one of the explicit-rep point conversions)",
+              ("conv", "maker"): "in<T>/as<T> with the target unit named by its QuantityPointMaker",
+              ("pair", "cmp"): "a comparison of two points", ("pair", "sub"): "point - point", ("pair", "ss"): "<=> of two points",
+              ("pair", "kind"): "point - point yielding a Quantity", ("shift", "shift"): "point +- quantity",
+              ("shift", "kind"): "point +- quantity yielding a QuantityPoint", ("shift", "compound"): "p += q / p -= q with q of the point's own Diff type"}
 JUDGED_BY_PY = {"conversion", "cmp-exact", "spaceship-exact", "point-difference", "point-shift"}
 
 
@@ -82,7 +87,7 @@ def _selftest(run, ro, units):
     u = {x.name: x for x in units}
     it = S.Conv(0, u["celsius"], "int64_t", u["milli_kelvins"], "int64_t", ro["disp"][("celsius", "milli_kelvins")]["disp"])
     it.kd += 1
-    it.ops[core.GXX14.name] = {"ci": True, "pol": False, "ctor": False}
+    it.ops[core.GXX14.name] = {"ci": True, "pol": False, "ctor": False, "maker": True}
     it.iv = [(-5, 5)]
     stats, viols = S.build_and_run(run.wd, core.GXX14, "selftest", [it], [], nsplit=1)
     if not any(v["kind"] == "conversion" for v in viols):
@@ -119,9 +124,9 @@ def check(run):
         if got != ub.o - ua.o:
             key = "C09:origin-displacement:U1=%s:U2=%s" % (a, b)
             run.violation(key, "origin_displacement(%s, %s) is %s K, exact origin difference is %s K" % (a, b, got, ub.o - ua.o))
-    for (a, b), o in ro["cpu"].items():
-        if o["sub_mag"] != o["mag"]:
-            raise core.InfraError("C09: point difference of (%s,%s) is not expressed in the common point unit" % (a, b))
+    # the statement only asks for the exact displacement, not for the unit it is expressed in: a difference that is not
+    # expressed in the common point unit is counted and its value is not judged by this harness
+    sub_not_in_cpu = sum(1 for o in ro["cpu"].values() if o["sub_mag"] != o["mag"])
     insts = S.build_instances(tier, units, qunits,
                               {"disp": {k: v["disp"] for k, v in ro["disp"].items()}, "cpu": ro["cpu"], "shift": ro["shift"]})
     by_id = {it.id: it for it in insts}
@@ -136,11 +141,22 @@ def check(run):
     neg_ev, neg_rej, neg_acc, neg_cases = _negative(run, neg_cfgs, tier)
     phases["negative_probes"] = round(run.elapsed() - t0, 1)
     t0 = run.elapsed()
+    n_refused = 0
     for cfg, _, _, parts in sweeps:
-        m, a, r = S.run_domain_probes(run.wd, cfg, [it for it in insts if any(it.kind == k and f(it) for k, f in parts)])
+        m, a, r, refused = S.run_domain_probes(run.wd, cfg, [it for it in insts if any(it.kind == k and f(it) for k, f in parts)])
         mism += m
         nacc += a
         nrej += r
+        for it, g, code, diag in refused:
+            key = "C09:does-not-compile:%s:%s:%s:%s" % (it.kind, g, it.desc(), cfg.name)
+            what = ("%s: %s on %s does not compile although nothing in the computation is outside the implicit-conversion policy or "
+                    "unrepresentable (%s)" % (cfg, GROUP_TEXT.get((it.kind, g), g), it.desc(), diag[:200]))
+            rp = None
+            if run.match_known(key) is None and n_refused < 60:
+                rp = run.write_replay(key, {"kind": "accept-probe", "config": str(cfg), "code": code, "expected": "accept",
+                                            "observed": "reject", "what": what})
+            run.violation(key, what, rp)
+            n_refused += 1
     phases["domain_probes"] = round(run.elapsed() - t0, 1)
     # an implicit point conversion that is declared (is_convertible) but ill-formed when actually performed says nothing
     # about C09 (which conversions are implicit is C06's subject, finding F13): counted, never judged here
@@ -149,21 +165,24 @@ def check(run):
                               and not it.ops[cfg.name]["ctor"] and not it.ops[cfg.name]["noctor"]})
     big = 2 ** 15
     pbig = 2 ** 11
-    pbig_core = 2 ** 11 if quick else 2 ** 12
+    pbig_core = 2 ** 11 if quick else 2 ** 15
+    lat = 4 if quick else 1        # lattice exponent step: 2^j, 3*2^(j-1), 5*2^(j-2) (and /factors) for j = 2, 2+lat, ...
     for it in insts:
         if it.kind == "conv":
-            it.prepare(big, 40)
+            it.prepare(big, 40, lat)
         elif it.kind == "pair":
-            it.prepare(pbig_core if is_core(it) else pbig, 2)
+            it.prepare(pbig_core if is_core(it) else pbig, 2, lat, full16=not quick and is_core(it))
         else:
-            it.prepare(pbig_core if is_core(it) else pbig, 3)
+            it.prepare(pbig_core if is_core(it) else pbig, 3, lat, full16=not quick and is_core(it))
     allstats, nviol, done, cut = [], 0, [], []
     rate = None      # measured wall seconds per unit of estimated work, for the deadline guard only
     for cfg, flags, build, parts in sweeps:
         for kind, flt in parts:
             tot = [it for it in insts if it.kind == kind and flt(it)]
             acc = [it for it in tot if it.swept(cfg)]
-            if len(acc) < {"conv": 0.5, "pair": 0.35, "shift": 0.5}[kind] * len(tot):
+            if not acc:
+                continue
+            if len(acc) < {"conv": 0.5, "pair": 0.35, "shift": 0.5}[kind] * len(tot) and not n_refused:
                 raise core.InfraError("vacuity guard: only %d of %d %s instances are in-domain under %s (e.g. %s)"
                                       % (len(acc), len(tot), kind, cfg, mism[:2]))
             work = sum(it.weight() + 300000 for it in acc) * (1.6 if cfg.is_clang else 1.0)
@@ -181,7 +200,7 @@ def check(run):
                 raise core.InfraError("C09: %d instances swept but %d reported" % (len(acc), len(stats)))
             nviol += _report(run, cfg, build, flags, by_id, viols)
             vac = [s for s in stats if s["judged"] == 0]
-            if len(vac) > 0.3 * len(stats):
+            if len(vac) > 0.3 * len(stats) and stats:
                 raise core.InfraError("vacuity guard: %d of %d swept %s instances have no value inside the precondition (e.g. %s)"
                                       % (len(vac), len(stats), kind, by_id[vac[0]["inst"]].desc()))
             allstats += [dict(s, build=build) for s in stats]
@@ -192,7 +211,7 @@ def check(run):
     first = [s for s in allstats if s["build"] == done[0]]
     nontriv = 0
     for s in first:
-        skipped = s["skip_x"] + s["skip_mid"] + s["skip_scale"] + s["skip_inexact"] + s["skip_result"]
+        skipped = s["skip_x"] + s["skip_mid"] + s["skip_scale"] + s["skip_inexact"] + s["skip_result"] + s["skip_sign"]
         if s["type"] == "pair":
             nontriv += bool(s["lt"] and s["eq"] and s["gt"])
         else:
@@ -209,6 +228,13 @@ def check(run):
         "excluded_true_result_not_an_integer": tot("skip_inexact"),
         "excluded_true_result_out_of_range": tot("skip_result"),
         "float_comparisons_inside_tolerance_band_not_judged": tot("band"),
+        "excluded_negative_operand_against_unsigned_common_rep": tot("skip_sign"),
+        "compound_assignment_evaluations": tot("compound"),
+        "operations_not_compiling_although_nothing_is_outside_policy": n_refused,
+        "point_differences_not_expressed_in_common_point_unit_not_judged": sub_not_in_cpu,
+        "same_unit_pair_instances": sum(1 for it in insts if it.kind == "pair" and it.u1.name == it.u2.name),
+        "narrow_rep_pair_and_shift_instances": sum(1 for it in insts if it.kind != "conv" and not S.isf(it.c) and core.BITS[it.c] < 32),
+        "lattice_exponent_step": lat,
         "ubsan_reports": tot("ubsan"),
         "instances_candidates": {k: sum(1 for it in insts if it.kind == k) for k in ("conv", "pair", "shift")},
         "instances_statically_outside_statement": sum(1 for it in insts if it.static_out),
@@ -234,15 +260,19 @@ def check(run):
         "window_radius_conversions": big, "window_radius_point_pairs": pbig, "window_radius_point_pairs_core_units": pbig_core,
         "distinct_nontrivial": nontriv,
         "raw_violation_records": nviol,
-        "rule": "conv instance = ordered pair of distinct point units x (source rep, target rep) in {int32,int64,double,float,"
-                "uint32}^2: every integer stored value within +-2^15 of 0, of the target's origin and of absolute zero, plus "
-                "+-40 windows at the rep limits and at every overflow threshold of the modelled computation (floating source "
-                "reps: also value+1/4); coerce_in/coerce_as/in<T>/as<T> and, where they compile, the policy-checked in/as are "
-                "compared with the exact affine map. pair instance = unordered unit pair x ordered rep pair: window values x "
-                "(small alphabet + the other operand's values nearest the same position), six comparisons, <=> and p-p in "
-                "both argument orders. shift instance = point unit x quantity unit x rep pair: p+q, q+p, p-q. Which forms "
-                "compile is observed by probes. Negative probes: each rejected program has an accepted twin. non-trivial = "
-                "conv/shift instance with both judged and excluded values, pair instance on which <, == and > all occurred.",
+        "rule": "conv instance = ordered pair of distinct point units x (source rep, target rep) from {int32,int64,uint32,uint64,float,double,"
+                "long double} (+ 8/16-bit pairs, every value of those): every integer stored value within +-2^15 of 0, of the target's "
+                "origin and of absolute zero, +-40 windows at the rep limits, at every overflow threshold of the modelled computation and "
+                "of other plausible orders of it, and the enumerated lattice {2^j, 3*2^(j-1), 5*2^(j-2)} / {1, KX, KX*N} +-1 (floating "
+                "source reps: also value+1/4, +1/3); coerce_in/coerce_as/in<T>/as<T> with the target named by a unit or by its point maker "
+                "and, where they compile, the implicit constructor and the policy-checked in/as are compared with the exact affine map. "
+                "pair instance = unordered unit pair INCLUDING the same unit twice (non-template friend operators) x ordered rep pair "
+                "incl. sub-int reps: window + lattice values x (small alphabet + the other operand's values nearest the same position), six "
+                "comparisons, <=> and p-p in both argument orders. shift instance = point unit x quantity unit x rep pair: p+q, q+p, "
+                "p-q and, when q has the point's own Diff type, p+=q / p-=q. Every operation whose documented computation stays inside "
+                "the implicit-conversion policy MUST compile (violation otherwise) and p-p must be a Quantity, p+-q a QuantityPoint. "
+                "Negative probes: each rejected program has an accepted twin. non-trivial = conv/shift instance with both judged and "
+                "excluded values, pair instance on which <, == and > all occurred.",
         "exhaustive": not cut,
         "exhaustive_note": "exhaustive over the stated windows of every in-domain instance; values outside the windows are not covered",
         "samples": [{"type": s["type"], "instance": by_id[s["inst"]].desc(), "values": s["gen"], "judged": s["judged"],
@@ -260,7 +290,17 @@ def check(run):
         "floating computation rep: |result - exact| <= 8 ulp of that rep at max(|x*KX|, |KD|, |t|) in result units (+1 ulp of a "
         "narrower floating target, +1 for an integral target, values within that band of the target limits excluded)",
         "comparisons / p-p / p+-q: demanded when x_i, x_i*A_i and x_i*A_i+B_i are representable in the common rep, where A_i, B_i map "
-        "operand i into the implementation's common point unit (scale read out, origin = the model's smallest origin)",
+        "operand i into the implementation's common point unit (scale read out, origin = the model's smallest origin); a difference / "
+        "shifted point is judged when the exact value is representable in the rep the library returns (std::common_type of the operand "
+        "reps, which is NOT promoted for two equal sub-int reps). For equal sub-int reps every step of the documented computation is a "
+        "ring operation in int followed by a narrowing to the rep and the policy bounds every factor by max/2147, so no int overflow can "
+        "occur and the precondition above is sufficient",
+        "an operation must compile when the model finds nothing the statement lets the library refuse: integral common rep C -> each "
+        "factor of p.as(common point unit) (operand unit -> common unit with the displacement unit, displacement unit -> that, that -> "
+        "common point unit) is 1 or satisfies 2147*K <= max(C), and the displacement (read out) fits C; explicit-rep conversions -> the "
+        "two factors of the displacement subtraction. Policy-checked in(u)/as(u) and implicit construction are observed, not demanded",
+        "a negative signed operand compared with an operand of an unsigned common rep is counted separately and not judged (the library "
+        "converts to the unsigned common rep first; the statement's comparison clause has no representability proviso)",
         "x86-64 LP64, g++ 12 / clang 14; UBSan (-fsanitize=undefined) observes the clang build",
     ]
 
@@ -271,6 +311,14 @@ def replay(path):
     cfg = cfg[0] if cfg else core.GXX14
     wd = os.path.join(core.BUILD, "C09", "replay")
     os.makedirs(wd, exist_ok=True)
+    if r.get("kind") == "accept-probe":
+        p = core.Probe(0, r["code"], "accept")
+        res, _ = core.run_probes(cfg, [p], wd, "rp", S.PREAMBLE + S.KIND_PREAMBLE, flags=cflags(cfg))
+        print("observed:", res[0][0], res[0][1][:200])
+        if res[0][0] != "accept":
+            print("VIOLATION property=C09 replay=%s" % path)
+            return 1
+        return 0
     if r.get("kind") == "probe":
         p = core.Probe(0, r["code"], "reject")
         res, _ = core.run_probes(cfg, [p], wd, "rp", S.NEG_PREAMBLE, flags=cflags(cfg))
